@@ -11,7 +11,8 @@ EXTENDS Naturals, Sequences, FiniteSets, TLC, Json
 
 CONSTANT FIXV   \* [peval, dupout, circuit]: which repairs of validate() are in the tree
 
-OwnC == {"ok", "eq_n", "far"}
+\* (an index that is no party has no "right" number of input bits: both some bits and none are tried)
+OwnC == {"ok", "eq_n", "far", "eq_n_noinputs", "far_noinputs"}
 PeC == {"ok", "eq_n", "far"}
 PoC == {"ok", "unsorted", "empty", "has_n", "has_far", "has_n_first", "has_far_mid", "dup", "dup_unsorted"}
 InC == {"ok", "minus1", "plus1", "none"}
